@@ -84,7 +84,19 @@ pub fn cell(depth: u8) -> BoxedStrategy<Cell> {
   let m = n - 1;
   let coord_border = move || prop_oneof![Just(0u32), Just(m), Just(1u32.min(m)), Just(m.saturating_sub(1))];
   let any_coord = move || 0u32..=m;
+  // coordinates ending a long carry / borrow chain: k * 2^t - 1 and k * 2^t for every t <= depth
+  // (the z-order increments of the neighbour code propagate a carry through t interleaved bits)
+  let carry_coord = move || {
+    (0u32..=(depth as u32), any::<u32>(), any::<bool>()).prop_map(move |(t, hi, ones)| {
+      let low = if t >= 32 { u32::MAX } else { (1u32 << t) - 1 };
+      let v = if t >= 32 { 0 } else { hi << t };
+      (if ones { v | low } else { v }) & m
+    })
+  };
   prop_oneof![
+    1 => (0u8..12, carry_coord(), any_coord()).prop_map(|(b, i, j)| Cell { b, i, j }),
+    1 => (0u8..12, any_coord(), carry_coord()).prop_map(|(b, i, j)| Cell { b, i, j }),
+    1 => (0u8..12, carry_coord(), carry_coord()).prop_map(|(b, i, j)| Cell { b, i, j }),
     3 => (0u8..12, coord_border(), coord_border()).prop_map(|(b, i, j)| Cell { b, i, j }),
     2 => (0u8..12, coord_border(), any_coord()).prop_map(|(b, i, j)| Cell { b, i, j }),
     2 => (0u8..12, any_coord(), coord_border()).prop_map(|(b, i, j)| Cell { b, i, j }),
